@@ -352,6 +352,11 @@ pub fn run(ctx: &Ctx) {
         for v in &p {
             let c = || Expr::Value(v.clone());
             let i = |x: i128| Expr::value(x);
+            // (literal true / false branches do not make the condition's own type irrelevant)
+            out.push(EvalCase::plain(Expr::iif(c(), Expr::value(true), Expr::value(false)), Value::None));
+            out.push(EvalCase::plain(Expr::iif(c(), Expr::value(false), Expr::value(true)), Value::None));
+            out.push(EvalCase::plain(Expr::eq(Expr::iif(c(), Expr::value(true), Expr::value(false)), c()), Value::None));
+            out.push(EvalCase::plain(Expr::Vec(vec![Expr::iif(c(), Expr::value(true), Expr::value(false))]), Value::None));
             out.push(EvalCase::plain(Expr::iif(Expr::value(false), i(1), Expr::iif(c(), i(2), i(3))), Value::None));
             out.push(EvalCase::plain(Expr::iif(Expr::value(false), i(1), Expr::iif(Expr::value(false), i(2), Expr::iif(c(), i(3), i(4)))), Value::None));
             out.push(EvalCase::plain(Expr::iif(Expr::value(true), Expr::iif(c(), i(2), i(3)), i(1)), Value::None));
